@@ -266,7 +266,8 @@ def run(ctx):
         for _ in range(depth):
             t_ = impl.T("section", None, [t_])
         return t_
-    for shape_name, t in [("300 children", wide(300, 1)), ("3 levels of 100 siblings", wide(100, 3)), ("257 children", wide(257, 1)), ("chain of depth 300", chain(300))]:
+    bushy = impl.T("attributeList", None, [impl.T("attribute", str(i), [impl.T("attributeName", f"{i}.{j}") for j in range(3)]) for i in range(13)])
+    for shape_name, t in [("13 children with 3 children each", bushy), ("300 children", wide(300, 1)), ("3 levels of 100 siblings", wide(100, 3)), ("257 children", wide(257, 1)), ("chain of depth 300", chain(300))]:
         impl.reset()
         root = impl.build(t)
         nedits += 1
@@ -277,6 +278,12 @@ def run(ctx):
             continue
         if value(cp) != value(root):
             fails.append({"case": {"shape": shape_name}, "what": f"the copy of a tree with {shape_name} differs from the original"})
+        else:
+            cids = [n.id for n in walk(cp)]
+            if len(set(cids)) != len(cids):
+                fails.append({"case": {"shape": shape_name}, "what": f"two nodes of the copy of a tree with {shape_name} carry the same id"})
+            elif any(Node.get_node_instance(n.id) is not n for n in walk(cp)):
+                fails.append({"case": {"shape": shape_name}, "what": f"a node of the copy of a tree with {shape_name} is not registered under its id"})
     # copy, edit the copy's namespace map IN PLACE (re-bind an existing prefix, as fix_nsmap does), copy the original again:
     # the second copy still equals the original (no state survives between copies)
     for i in range(40 if ctx.tier == "quick" else 400):
